@@ -58,6 +58,14 @@ Definition mul_at (ratio : Z) (a : option Z) : option Z :=
 Definition prune_at (a : option Z) : option Z :=
   match a with Some v => if v =? 0 then None else Some v | None => None end.
 
+(* x is a canonical binary64 datum other than NaN (what every IEEE operation returns) *)
+Definition f_valid (x : f64) : bool :=
+  match x with
+  | S754_finite _ m e => bounded prec emax m e
+  | S754_nan => false
+  | _ => true
+  end.
+
 (* mulValRatio: exact truncation of the rounded binary64 product, saturated.
    [f_trunc_ext] extends truncation to infinities by any value beyond the int64 range. *)
 Definition f_trunc_ext (x : f64) : Z :=
